@@ -2,8 +2,15 @@ import NucsProofs.Basic
 /-!
   max_leq, min_geq, max_eq, min_eq : variables `x_0 … x_{n-2}, y` (n ≥ 2).
 
+  Proved for each `a ∈ {maxLeq, minGeq, maxEq, minEq}`:
+  `sound_a`, `groundOk_a`, `entailOk_a`, `contractMono_a`, `safe_a`, `trigOk_a`, `exact_a`.
+
   Layout: (1) the `xs ++ [y]` shape, (2) `maxOf`/`minOf`, (3) generic lifting of "core" contracts
-  on `(xs, y)` to the `Spec` contracts on `B = xs ++ [y]`, (4) the four propagators.
+  on `(xs, y)` to the `Spec` contracts on `B = xs ++ [y]` (`IsLift`, `*_lift`), (4) the four
+  propagators: Sound / GroundOk / EntailOk / ContractMono / Safe, (5) trigger sufficiency
+  (sign-dependent masks for max_leq / min_geq; `trigOk_of_minMax'` for the MIN|MAX masks),
+  (6) exactness: the result is characterised as a fixpoint shape (`maxLeq_result_fix`,
+  `MaxEqFix`, …), every bound is attained by an explicit tuple and the call is idempotent.
 -/
 namespace Nucs
 
@@ -100,10 +107,19 @@ theorem exists_getDom_of_mem {xs : Box} {d : Dom} (h : d ∈ xs) : ∃ k, k < xs
 
 /-! `inBox` / `Box.le` against `map` -/
 
-theorem Box.map_le (f : Dom → Dom) (hf : ∀ d, d.1 ≤ (f d).1 ∧ (f d).2 ≤ d.2) :
-    ∀ xs : Box, Box.le (xs.map f) xs
-  | [] => trivial
-  | d :: ds => ⟨hf d, Box.map_le f hf ds⟩
+theorem Box.map_le' (f : Dom → Dom) :
+    ∀ xs : Box, (∀ d ∈ xs, d.1 ≤ (f d).1 ∧ (f d).2 ≤ d.2) → Box.le (xs.map f) xs
+  | [], _ => trivial
+  | d :: ds, hf => ⟨hf d (by simp), Box.map_le' f ds (fun e he => hf e (by simp [he]))⟩
+
+theorem Box.map_le (f : Dom → Dom) (hf : ∀ d, d.1 ≤ (f d).1 ∧ (f d).2 ≤ d.2) (xs : Box) :
+    Box.le (xs.map f) xs := Box.map_le' f xs (fun d _ => hf d)
+
+theorem Box.nonempty_map (f : Dom → Dom) (xs : Box) (h : ∀ d ∈ xs, (f d).1 ≤ (f d).2) :
+    Box.Nonempty (xs.map f) := by
+  intro e he
+  obtain ⟨d, hd, rfl⟩ := List.mem_map.mp he
+  exact h d hd
 
 theorem inBox_map (f : Dom → Dom) (P : Int → Prop) (hf : ∀ x d, P x → inDom x d → inDom x (f d)) :
     ∀ {ts : List Int} {xs : Box}, inBox ts xs → (∀ x ∈ ts, P x) → inBox ts (xs.map f)
@@ -332,5 +348,1402 @@ theorem trigOk_lift (L : IsLift a core R) (mx my : Ev)
   rw [L.run, liftLast_concat, h1]
 
 end lift
+
+/-! ### 4a. max_leq : `Max_i x_i ≤ y` -/
+
+def RmaxLeq (ts : List Int) (v : Int) : Prop := ∀ x ∈ ts, x ≤ v
+
+theorem isLift_maxLeq : IsLift .maxLeq maxLeqCore RmaxLeq :=
+  ⟨fun _ _ => rfl, fun _ _ => Iff.rfl, fun _ _ => Iff.rfl, fun _ _ => Iff.rfl⟩
+
+/-- the three outcomes of `maxLeqCore` -/
+theorem maxLeqCore_cases (xs : Box) (y : Dom) :
+    (maxOf (·.2) xs ≤ y.1 ∧ maxLeqCore xs y = (.ent, xs, y)) ∨
+    (¬ maxOf (·.2) xs ≤ y.1 ∧ maxLeqCore xs y = (.inc, xs, y) ∧
+      (max y.1 (maxOf (·.1) xs) > y.2 ∨ ¬ Box.Nonempty (xs.map (fun d => (d.1, min d.2 y.2))))) ∨
+    (¬ maxOf (·.2) xs ≤ y.1 ∧ max y.1 (maxOf (·.1) xs) ≤ y.2 ∧
+      Box.Nonempty (xs.map (fun d => (d.1, min d.2 y.2))) ∧
+      maxLeqCore xs y = (.cons, xs.map (fun d => (d.1, min d.2 y.2)), (max y.1 (maxOf (·.1) xs), y.2))) := by
+  simp only [maxLeqCore]
+  by_cases h1 : maxOf (·.2) xs ≤ y.1
+  · left; simp [h1]
+  · right
+    by_cases h2 : max y.1 (maxOf (·.1) xs) > y.2
+    · left; simp [h1, h2]
+    · by_cases h3 : Box.hasEmpty (xs.map (fun d => (d.1, min d.2 y.2))) = true
+      · left
+        refine ⟨h1, by simp [h1, h2, h3], Or.inr ?_⟩
+        rw [← Box.hasEmpty_eq_false_iff]; simp [h3]
+      · right
+        have h3' : Box.hasEmpty (xs.map (fun d => (d.1, min d.2 y.2))) = false := by simpa using h3
+        refine ⟨h1, by omega, (Box.hasEmpty_eq_false_iff _).mp h3', ?_⟩
+        simp [h1, h2, h3']
+
+theorem maxLeq_keep {xs : Box} {y : Dom} {ts : List Int} {v : Int} (hxs : xs ≠ [])
+    (hts : inBox ts xs) (hv : inDom v y) (hr : RmaxLeq ts v) :
+    inBox ts (xs.map (fun d => (d.1, min d.2 y.2))) ∧ inDom v (max y.1 (maxOf (·.1) xs), y.2) := by
+  constructor
+  · refine inBox_map _ (fun x => x ≤ v) ?_ hts hr
+    intro x d hx hxd
+    unfold inDom at *
+    simp only
+    omega
+  · obtain ⟨d, hd, hfd⟩ := maxOf_mem (·.1) xs hxs
+    obtain ⟨x, hx, hxd⟩ := inBox_exists_of_mem hts d hd
+    have := hr x hx
+    unfold inDom at *
+    simp only at *
+    omega
+
+theorem coreSound_maxLeq : CoreSound maxLeqCore RmaxLeq := by
+  intro xs y st xs' y' hxs hnx hny hcore
+  rcases maxLeqCore_cases xs y with ⟨_, he⟩ | ⟨_, he, hf⟩ | ⟨_, h2, h3, he⟩
+  · rw [he] at hcore
+    injection hcore with h1 hcore; injection hcore with h2 h3
+    subst h1; subst h2; subst h3
+    exact ⟨fun _ => ⟨Box.le_refl _, ⟨Int.le_refl _, Int.le_refl _⟩, hnx, hny, fun ts v a b _ => ⟨a, b⟩⟩,
+      fun h => by cases h⟩
+  · rw [he] at hcore
+    injection hcore with h1 hcore
+    subst h1
+    refine ⟨fun h => absurd rfl h, fun _ ts v hts hv hr => ?_⟩
+    obtain ⟨k1, k2⟩ := maxLeq_keep hxs hts hv hr
+    rcases hf with hf | hf
+    · unfold inDom at k2; simp only at k2; omega
+    · exact hf (nonempty_of_inBox k1)
+  · rw [he] at hcore
+    injection hcore with h1 hcore; injection hcore with h4 h5
+    subst h1; subst h4; subst h5
+    refine ⟨fun _ => ⟨Box.map_le _ (fun d => ?_) xs, ?_, h3, h2, fun ts v a b c => maxLeq_keep hxs a b c⟩,
+      fun h => by cases h⟩
+    · simp only; omega
+    · simp only; omega
+
+theorem sound_maxLeq : Sound .maxLeq := sound_lift isLift_maxLeq coreSound_maxLeq
+
+theorem mem_pointBox {ts : List Int} {d : Dom} : d ∈ pointBox ts ↔ ∃ x ∈ ts, d = (x, x) := by
+  simp [pointBox, eq_comm]
+
+theorem coreGround_maxLeq : CoreGround maxLeqCore RmaxLeq := by
+  intro xs y st ts v hxs hnx hny hcore hst x hx
+  rcases maxLeqCore_cases xs y with ⟨h0, he⟩ | ⟨_, he, _⟩ | ⟨_, h2, h3, he⟩
+  · rw [he] at hcore
+    injection hcore with h1 hcore; injection hcore with h2 h3
+    subst h2; subst h3
+    have := le_maxOf (·.2) (pointBox ts) (x, x) (mem_pointBox.mpr ⟨x, hx, rfl⟩)
+    simp only at this h0
+    omega
+  · rw [he] at hcore
+    injection hcore with h1 hcore
+    exact absurd h1.symm hst
+  · rw [he] at hcore
+    injection hcore with h1 hcore; injection hcore with h4 h5
+    have hm : (x, x) ∈ xs.map (fun d => (d.1, min d.2 y.2)) := by
+      rw [h4]; exact mem_pointBox.mpr ⟨x, hx, rfl⟩
+    obtain ⟨d, _, hd⟩ := List.mem_map.mp hm
+    injection hd with e1 e2
+    injection h5 with e3 e4
+    omega
+
+theorem groundOk_maxLeq : GroundOk .maxLeq := groundOk_lift isLift_maxLeq coreGround_maxLeq
+
+theorem coreEntail_maxLeq : CoreEntail maxLeqCore RmaxLeq := by
+  intro xs y xs' y' hxs hnx hny hcore ts v hts hv x hx
+  rcases maxLeqCore_cases xs y with ⟨h0, he⟩ | ⟨_, he, _⟩ | ⟨_, h2, h3, he⟩
+  · rw [he] at hcore
+    injection hcore with h1 hcore; injection hcore with h2 h3
+    subst h2; subst h3
+    obtain ⟨d, hd, hxd⟩ := inBox_exists_of_mem' hts x hx
+    have := le_maxOf (·.2) xs d hd
+    unfold inDom at *
+    omega
+  · rw [he] at hcore; injection hcore with h1 _; cases h1
+  · rw [he] at hcore; injection hcore with h1 _; cases h1
+
+theorem entailOk_maxLeq : EntailOk .maxLeq := entailOk_lift isLift_maxLeq coreEntail_maxLeq
+theorem contractMono_maxLeq : ContractMono .maxLeq := contractMono_lift isLift_maxLeq
+theorem safe_maxLeq : Safe .maxLeq := safe_lift isLift_maxLeq
+
+/-! ### 4b. min_geq : `Min_i x_i ≥ y` -/
+
+def RminGeq (ts : List Int) (v : Int) : Prop := ∀ x ∈ ts, v ≤ x
+
+theorem isLift_minGeq : IsLift .minGeq minGeqCore RminGeq :=
+  ⟨fun _ _ => rfl, fun _ _ => Iff.rfl, fun _ _ => Iff.rfl, fun _ _ => Iff.rfl⟩
+
+/-- the three outcomes of `minGeqCore` -/
+theorem minGeqCore_cases (xs : Box) (y : Dom) :
+    (y.2 ≤ minOf (·.1) xs ∧ minGeqCore xs y = (.ent, xs, y)) ∨
+    (¬ y.2 ≤ minOf (·.1) xs ∧ minGeqCore xs y = (.inc, xs, y) ∧
+      (y.1 > min y.2 (minOf (·.2) xs) ∨ ¬ Box.Nonempty (xs.map (fun d => (max d.1 y.1, d.2))))) ∨
+    (¬ y.2 ≤ minOf (·.1) xs ∧ y.1 ≤ min y.2 (minOf (·.2) xs) ∧
+      Box.Nonempty (xs.map (fun d => (max d.1 y.1, d.2))) ∧
+      minGeqCore xs y = (.cons, xs.map (fun d => (max d.1 y.1, d.2)), (y.1, min y.2 (minOf (·.2) xs)))) := by
+  simp only [minGeqCore]
+  by_cases h1 : y.2 ≤ minOf (·.1) xs
+  · left; simp [h1]
+  · right
+    by_cases h2 : y.1 > min y.2 (minOf (·.2) xs)
+    · left; simp [h1, h2]
+    · by_cases h3 : Box.hasEmpty (xs.map (fun d => (max d.1 y.1, d.2))) = true
+      · left
+        refine ⟨h1, by simp [h1, h2, h3], Or.inr ?_⟩
+        rw [← Box.hasEmpty_eq_false_iff]; simp [h3]
+      · right
+        have h3' : Box.hasEmpty (xs.map (fun d => (max d.1 y.1, d.2))) = false := by simpa using h3
+        refine ⟨h1, by omega, (Box.hasEmpty_eq_false_iff _).mp h3', ?_⟩
+        simp [h1, h2, h3']
+
+theorem minGeq_keep {xs : Box} {y : Dom} {ts : List Int} {v : Int} (hxs : xs ≠ [])
+    (hts : inBox ts xs) (hv : inDom v y) (hr : RminGeq ts v) :
+    inBox ts (xs.map (fun d => (max d.1 y.1, d.2))) ∧ inDom v (y.1, min y.2 (minOf (·.2) xs)) := by
+  constructor
+  · refine inBox_map _ (fun x => v ≤ x) ?_ hts hr
+    intro x d hx hxd
+    unfold inDom at *
+    simp only
+    omega
+  · obtain ⟨d, hd, hfd⟩ := minOf_mem (·.2) xs hxs
+    obtain ⟨x, hx, hxd⟩ := inBox_exists_of_mem hts d hd
+    have := hr x hx
+    unfold inDom at *
+    simp only at *
+    omega
+
+theorem coreSound_minGeq : CoreSound minGeqCore RminGeq := by
+  intro xs y st xs' y' hxs hnx hny hcore
+  rcases minGeqCore_cases xs y with ⟨_, he⟩ | ⟨_, he, hf⟩ | ⟨_, h2, h3, he⟩
+  · rw [he] at hcore
+    injection hcore with h1 hcore; injection hcore with h2 h3
+    subst h1; subst h2; subst h3
+    exact ⟨fun _ => ⟨Box.le_refl _, ⟨Int.le_refl _, Int.le_refl _⟩, hnx, hny, fun ts v a b _ => ⟨a, b⟩⟩,
+      fun h => by cases h⟩
+  · rw [he] at hcore
+    injection hcore with h1 hcore
+    subst h1
+    refine ⟨fun h => absurd rfl h, fun _ ts v hts hv hr => ?_⟩
+    obtain ⟨k1, k2⟩ := minGeq_keep hxs hts hv hr
+    rcases hf with hf | hf
+    · unfold inDom at k2; simp only at k2; omega
+    · exact hf (nonempty_of_inBox k1)
+  · rw [he] at hcore
+    injection hcore with h1 hcore; injection hcore with h4 h5
+    subst h1; subst h4; subst h5
+    refine ⟨fun _ => ⟨Box.map_le _ (fun d => ?_) xs, ?_, h3, h2, fun ts v a b c => minGeq_keep hxs a b c⟩,
+      fun h => by cases h⟩
+    · simp only; omega
+    · simp only; omega
+
+theorem sound_minGeq : Sound .minGeq := sound_lift isLift_minGeq coreSound_minGeq
+
+theorem coreGround_minGeq : CoreGround minGeqCore RminGeq := by
+  intro xs y st ts v hxs hnx hny hcore hst x hx
+  rcases minGeqCore_cases xs y with ⟨h0, he⟩ | ⟨_, he, _⟩ | ⟨_, h2, h3, he⟩
+  · rw [he] at hcore
+    injection hcore with h1 hcore; injection hcore with h2 h3
+    subst h2; subst h3
+    have := minOf_le (·.1) (pointBox ts) (x, x) (mem_pointBox.mpr ⟨x, hx, rfl⟩)
+    simp only at this h0
+    omega
+  · rw [he] at hcore
+    injection hcore with h1 hcore
+    exact absurd h1.symm hst
+  · rw [he] at hcore
+    injection hcore with h1 hcore; injection hcore with h4 h5
+    have hm : (x, x) ∈ xs.map (fun d => (max d.1 y.1, d.2)) := by
+      rw [h4]; exact mem_pointBox.mpr ⟨x, hx, rfl⟩
+    obtain ⟨d, _, hd⟩ := List.mem_map.mp hm
+    injection hd with e1 e2
+    injection h5 with e3 e4
+    omega
+
+theorem groundOk_minGeq : GroundOk .minGeq := groundOk_lift isLift_minGeq coreGround_minGeq
+
+theorem coreEntail_minGeq : CoreEntail minGeqCore RminGeq := by
+  intro xs y xs' y' hxs hnx hny hcore ts v hts hv x hx
+  rcases minGeqCore_cases xs y with ⟨h0, he⟩ | ⟨_, he, _⟩ | ⟨_, h2, h3, he⟩
+  · rw [he] at hcore
+    injection hcore with h1 hcore; injection hcore with h2 h3
+    subst h2; subst h3
+    obtain ⟨d, hd, hxd⟩ := inBox_exists_of_mem' hts x hx
+    have := minOf_le (·.1) xs d hd
+    unfold inDom at *
+    omega
+  · rw [he] at hcore; injection hcore with h1 _; cases h1
+  · rw [he] at hcore; injection hcore with h1 _; cases h1
+
+theorem entailOk_minGeq : EntailOk .minGeq := entailOk_lift isLift_minGeq coreEntail_minGeq
+theorem contractMono_minGeq : ContractMono .minGeq := contractMono_lift isLift_minGeq
+theorem safe_minGeq : Safe .minGeq := safe_lift isLift_minGeq
+
+/-! ### 4c. max_eq : `Max_i x_i = y` -/
+
+def RmaxEq (ts : List Int) (v : Int) : Prop := v ∈ ts ∧ ∀ x ∈ ts, x ≤ v
+
+theorem isLift_maxEq : IsLift .maxEq maxEqCore RmaxEq :=
+  ⟨fun _ _ => rfl, fun _ _ => Iff.rfl, fun _ _ => Iff.rfl, fun _ _ => Iff.rfl⟩
+
+def mxLo (xs : Box) (y : Dom) : Int := max y.1 (maxOf (·.1) xs)
+def mxHi (xs : Box) (y : Dom) : Int := min y.2 (maxOf (·.2) xs)
+/-- cap the upper bound at `hi` -/
+def capD (hi : Int) (d : Dom) : Dom := if d.2 > hi then (d.1, hi) else d
+/-- the only candidate must take a value `≥ lo` -/
+def raiseD (lo : Int) (d : Dom) : Dom := if d.2 ≥ lo then (lo, d.2) else d
+def nCand (lo : Int) (zs : Box) : Nat := (zs.filter (fun d => decide (d.2 ≥ lo))).length
+
+theorem maxEqCore_cases (xs : Box) (y : Dom) :
+    (mxLo xs y > mxHi xs y ∧ maxEqCore xs y = (.inc, xs, y)) ∨
+    (mxLo xs y ≤ mxHi xs y ∧ nCand (mxLo xs y) (xs.map (capD (mxHi xs y))) = 1 ∧
+      maxEqCore xs y = (.cons, (xs.map (capD (mxHi xs y))).map (raiseD (mxLo xs y)), (mxLo xs y, mxHi xs y))) ∨
+    (mxLo xs y ≤ mxHi xs y ∧ nCand (mxLo xs y) (xs.map (capD (mxHi xs y))) ≠ 1 ∧
+      maxEqCore xs y = (.cons, xs.map (capD (mxHi xs y)), (mxLo xs y, mxHi xs y))) := by
+  by_cases h1 : mxLo xs y > mxHi xs y
+  · left; refine ⟨h1, ?_⟩
+    unfold mxLo mxHi at h1
+    simp [maxEqCore, h1]
+  · right
+    by_cases h2 : nCand (mxLo xs y) (xs.map (capD (mxHi xs y))) = 1
+    · left; refine ⟨by omega, h2, ?_⟩
+      unfold mxLo mxHi nCand capD raiseD at *
+      simp only [maxEqCore]
+      rw [if_neg h1, h2]
+      rfl
+    · right; refine ⟨by omega, h2, ?_⟩
+      unfold mxLo mxHi nCand capD at *
+      simp only [maxEqCore]
+      rw [if_neg h1]
+      simp only [beq_iff_eq]
+      rw [if_neg h2]
+
+/-- a solution's `y` value lies in the new `y` domain -/
+theorem maxEq_keep_y {xs : Box} {y : Dom} {ts : List Int} {v : Int}
+    (hts : inBox ts xs) (hv : inDom v y) (hr : RmaxEq ts v) (hxs : xs ≠ []) :
+    mxLo xs y ≤ v ∧ v ≤ mxHi xs y := by
+  unfold mxLo mxHi
+  obtain ⟨hmem, hle⟩ := hr
+  obtain ⟨d, hd, hfd⟩ := maxOf_mem (·.1) xs hxs
+  obtain ⟨x, hx, hxd⟩ := inBox_exists_of_mem hts d hd
+  have := hle x hx
+  obtain ⟨e, he, hve⟩ := inBox_exists_of_mem' hts v hmem
+  have := le_maxOf (·.2) xs e he
+  unfold inDom at *
+  omega
+
+theorem map_raiseD_of_nCand_zero (lo : Int) : ∀ (zs : Box), nCand lo zs = 0 → zs.map (raiseD lo) = zs
+  | [], _ => rfl
+  | d :: ds, h => by
+    unfold nCand at h
+    by_cases hc : d.2 ≥ lo
+    · simp [List.filter, hc] at h
+    · have h' : nCand lo ds = 0 := by simpa [nCand, List.filter, hc] using h
+      simp [raiseD, hc, map_raiseD_of_nCand_zero lo ds h']
+
+theorem nCand_pos_of_inBox (lo : Int) : ∀ {ts : List Int} {zs : Box}, inBox ts zs →
+    (∃ x ∈ ts, lo ≤ x) → 0 < nCand lo zs
+  | [], [], _, ⟨x, hx, _⟩ => by simp at hx
+  | t :: ts, d :: ds, h, ⟨x, hx, hlo⟩ => by
+    unfold nCand
+    by_cases hc : d.2 ≥ lo
+    · simp [List.filter, hc]
+    · have : x ∈ ts := by
+        rcases List.mem_cons.mp hx with hx | hx
+        · subst hx; have := h.1; unfold inDom at this; omega
+        · exact hx
+      have := nCand_pos_of_inBox lo h.2 ⟨x, this, hlo⟩
+      simpa [nCand, List.filter, hc] using this
+  | [], _ :: _, h, _ => by simp [inBox] at h
+  | _ :: _, [], h, _ => by simp [inBox] at h
+
+/-- with at most one candidate, the value `≥ lo` sits on it -/
+theorem maxEq_keep_raise (lo : Int) : ∀ {ts : List Int} {zs : Box}, inBox ts zs → nCand lo zs ≤ 1 →
+    (∃ x ∈ ts, lo ≤ x) → inBox ts (zs.map (raiseD lo))
+  | [], [], _, _, _ => trivial
+  | t :: ts, d :: ds, h, hn, ⟨x, hx, hlo⟩ => by
+    by_cases hc : d.2 ≥ lo
+    · have h0 : nCand lo ds = 0 := by
+        simp [nCand, List.filter, hc] at hn; simpa [nCand] using hn
+      have hxt : x = t := by
+        rcases List.mem_cons.mp hx with hx | hx
+        · exact hx
+        · have := nCand_pos_of_inBox lo h.2 ⟨x, hx, hlo⟩; omega
+      subst hxt
+      rw [List.map_cons, map_raiseD_of_nCand_zero lo ds h0]
+      refine ⟨?_, h.2⟩
+      have := h.1
+      unfold inDom raiseD at *
+      simp only [hc, if_true]
+      omega
+    · have hn' : nCand lo ds ≤ 1 := by simpa [nCand, List.filter, hc] using hn
+      have : x ∈ ts := by
+        rcases List.mem_cons.mp hx with hx | hx
+        · subst hx; have := h.1; unfold inDom at this; omega
+        · exact hx
+      have ih := maxEq_keep_raise lo h.2 hn' ⟨x, this, hlo⟩
+      refine ⟨?_, ih⟩
+      simpa [raiseD, hc] using h.1
+  | [], _ :: _, h, _, _ => by simp [inBox] at h
+  | _ :: _, [], h, _, _ => by simp [inBox] at h
+
+theorem maxEq_keep_cap {xs : Box} {hi : Int} {ts : List Int} (hts : inBox ts xs)
+    (hle : ∀ x ∈ ts, x ≤ hi) : inBox ts (xs.map (capD hi)) := by
+  refine inBox_map _ (fun x => x ≤ hi) ?_ hts hle
+  intro x d hx hxd
+  unfold inDom capD at *
+  split
+  · simp only; omega
+  · exact hxd
+
+/-- shape of the capped box: mins untouched and `≤ lo`, maxes `≤ hi`, non-empty -/
+theorem capD_facts {xs : Box} {y : Dom} (hnx : Box.Nonempty xs) (h : mxLo xs y ≤ mxHi xs y) :
+    ∀ d ∈ xs, (capD (mxHi xs y) d).1 = d.1 ∧ d.1 ≤ mxLo xs y ∧ (capD (mxHi xs y) d).2 ≤ mxHi xs y ∧
+      (capD (mxHi xs y) d).2 ≤ d.2 ∧ (capD (mxHi xs y) d).1 ≤ (capD (mxHi xs y) d).2 := by
+  intro d hd
+  have h1 := le_maxOf (·.1) xs d hd
+  have h2 := hnx d hd
+  have h3 : maxOf (·.1) xs ≤ mxLo xs y := by unfold mxLo; omega
+  have h1' : d.1 ≤ maxOf (·.1) xs := h1
+  by_cases hc : d.2 > mxHi xs y
+  · rw [capD, if_pos hc]; exact ⟨rfl, by omega, Int.le_refl _, by simp only; omega, by simp only; omega⟩
+  · rw [capD, if_neg hc]; exact ⟨rfl, by omega, by omega, Int.le_refl _, h2⟩
+
+theorem raiseD_facts (lo : Int) (d : Dom) (h : d.1 ≤ lo) (hd : d.1 ≤ d.2) :
+    d.1 ≤ (raiseD lo d).1 ∧ (raiseD lo d).2 = d.2 ∧ (raiseD lo d).1 ≤ (raiseD lo d).2 := by
+  by_cases hc : d.2 ≥ lo
+  · rw [raiseD, if_pos hc]; exact ⟨h, rfl, hc⟩
+  · rw [raiseD, if_neg hc]; exact ⟨Int.le_refl _, rfl, hd⟩
+
+theorem coreSound_maxEq : CoreSound maxEqCore RmaxEq := by
+  intro xs y st xs' y' hxs hnx hny hcore
+  have hyle : mxLo xs y ≤ mxHi xs y → (y.1 ≤ (mxLo xs y, mxHi xs y).1 ∧ (mxLo xs y, mxHi xs y).2 ≤ y.2) := by
+    intro _; unfold mxLo mxHi; simp only; omega
+  rcases maxEqCore_cases xs y with ⟨h0, he⟩ | ⟨h0, hn, he⟩ | ⟨h0, hn, he⟩
+  · rw [he] at hcore
+    injection hcore with h1 hcore
+    subst h1
+    refine ⟨fun h => absurd rfl h, fun _ ts v hts hv hr => ?_⟩
+    have := maxEq_keep_y hts hv hr hxs
+    omega
+  · rw [he] at hcore
+    injection hcore with h1 hcore; injection hcore with h4 h5
+    subst h1; subst h4; subst h5
+    have hcf := capD_facts (y := y) hnx h0
+    refine ⟨fun _ => ⟨?_, hyle h0, ?_, h0, fun ts v hts hv hr => ?_⟩, fun h => by cases h⟩
+    · rw [List.map_map]
+      refine Box.map_le' _ xs (fun d hd => ?_)
+      obtain ⟨c1, c2, c3, c4, c5⟩ := hcf d hd
+      have := raiseD_facts (mxLo xs y) (capD (mxHi xs y) d) (by omega) c5
+      simp only [Function.comp]
+      omega
+    · rw [List.map_map]
+      refine Box.nonempty_map _ xs (fun d hd => ?_)
+      obtain ⟨c1, c2, c3, c4, c5⟩ := hcf d hd
+      exact (raiseD_facts (mxLo xs y) (capD (mxHi xs y) d) (by omega) c5).2.2
+    · have hk := maxEq_keep_y hts hv hr hxs
+      have hcap := maxEq_keep_cap (hi := mxHi xs y) hts (fun x hx => by have := hr.2 x hx; omega)
+      exact ⟨maxEq_keep_raise _ hcap (by omega) ⟨v, hr.1, hk.1⟩, hk⟩
+  · rw [he] at hcore
+    injection hcore with h1 hcore; injection hcore with h4 h5
+    subst h1; subst h4; subst h5
+    have hcf := capD_facts (y := y) hnx h0
+    refine ⟨fun _ => ⟨?_, hyle h0, ?_, h0, fun ts v hts hv hr => ?_⟩, fun h => by cases h⟩
+    · refine Box.map_le' _ xs (fun d hd => ?_)
+      obtain ⟨c1, c2, c3, c4, c5⟩ := hcf d hd
+      omega
+    · exact Box.nonempty_map _ xs (fun d hd => (hcf d hd).2.2.2.2)
+    · have hk := maxEq_keep_y hts hv hr hxs
+      exact ⟨maxEq_keep_cap hts (fun x hx => by have := hr.2 x hx; omega), hk⟩
+
+theorem sound_maxEq : Sound .maxEq := sound_lift isLift_maxEq coreSound_maxEq
+
+theorem contractMono_maxEq : ContractMono .maxEq := contractMono_lift isLift_maxEq
+theorem safe_maxEq : Safe .maxEq := safe_lift isLift_maxEq
+
+theorem nCand_pos_of_mem (lo : Int) : ∀ (zs : Box) (e : Dom), e ∈ zs → e.2 ≥ lo → 0 < nCand lo zs
+  | d :: ds, e, he, h => by
+    unfold nCand
+    by_cases hc : d.2 ≥ lo
+    · simp [List.filter, hc]
+    · have : e ∈ ds := by
+        rcases List.mem_cons.mp he with he | he
+        · subst he; exact absurd h hc
+        · exact he
+      have := nCand_pos_of_mem lo ds e this h
+      simpa [nCand, List.filter, hc] using this
+
+/-- what a non-failing `maxEqCore` call establishes (and what makes a box a fixpoint) -/
+structure MaxEqFix (zs : Box) (lo hi : Int) : Prop where
+  le : lo ≤ hi
+  bnd : ∀ e ∈ zs, e.1 ≤ lo ∧ e.1 ≤ e.2 ∧ e.2 ≤ hi
+  top : ∃ e ∈ zs, e.2 = hi
+  cand : ∀ e ∈ zs, e.2 ≥ lo → e.1 = lo ∨ 2 ≤ nCand lo zs
+
+theorem capD_top {xs : Box} {y : Dom} (hxs : xs ≠ []) :
+    ∃ d ∈ xs, (capD (mxHi xs y) d).2 = mxHi xs y := by
+  obtain ⟨d, hd, hfd⟩ := maxOf_mem (·.2) xs hxs
+  refine ⟨d, hd, ?_⟩
+  have : mxHi xs y ≤ d.2 := by unfold mxHi; omega
+  by_cases hc : d.2 > mxHi xs y
+  · rw [capD, if_pos hc]
+  · rw [capD, if_neg hc]; omega
+
+theorem maxEq_result_fix {xs : Box} {y : Dom} {st : Status} {xs' : Box} {y' : Dom}
+    (hxs : xs ≠ []) (hnx : Box.Nonempty xs) (hcore : maxEqCore xs y = (st, xs', y')) (hst : st ≠ .inc) :
+    y' = (mxLo xs y, mxHi xs y) ∧ MaxEqFix xs' (mxLo xs y) (mxHi xs y) := by
+  rcases maxEqCore_cases xs y with ⟨h0, he⟩ | ⟨h0, hn, he⟩ | ⟨h0, hn, he⟩
+  · rw [he] at hcore
+    injection hcore with h1 _
+    exact absurd h1.symm hst
+  · rw [he] at hcore
+    injection hcore with h1 hcore; injection hcore with h4 h5
+    subst h4; subst h5
+    have hcf := capD_facts (y := y) hnx h0
+    refine ⟨rfl, h0, ?_, ?_, ?_⟩
+    · intro e he
+      rw [List.map_map] at he
+      obtain ⟨d, hd, rfl⟩ := List.mem_map.mp he
+      obtain ⟨c1, c2, c3, c4, c5⟩ := hcf d hd
+      simp only [Function.comp]
+      by_cases hc : (capD (mxHi xs y) d).2 ≥ mxLo xs y
+      · rw [raiseD, if_pos hc]; exact ⟨Int.le_refl _, hc, c3⟩
+      · rw [raiseD, if_neg hc]; omega
+    · obtain ⟨d, hd, htop⟩ := capD_top (y := y) hxs
+      obtain ⟨c1, c2, c3, c4, c5⟩ := hcf d hd
+      refine ⟨raiseD (mxLo xs y) (capD (mxHi xs y) d), ?_, ?_⟩
+      · exact List.mem_map.mpr ⟨_, List.mem_map.mpr ⟨d, hd, rfl⟩, rfl⟩
+      · rw [(raiseD_facts _ _ (by omega) c5).2.1]; exact htop
+    · intro e he hge
+      obtain ⟨c, hc, rfl⟩ := List.mem_map.mp he
+      left
+      by_cases hcc : c.2 ≥ mxLo xs y
+      · rw [raiseD, if_pos hcc]
+      · rw [raiseD, if_neg hcc] at hge; exact absurd hge hcc
+  · rw [he] at hcore
+    injection hcore with h1 hcore; injection hcore with h4 h5
+    subst h4; subst h5
+    have hcf := capD_facts (y := y) hnx h0
+    obtain ⟨d0, hd0, htop⟩ := capD_top (y := y) hxs
+    have hpos := nCand_pos_of_mem (mxLo xs y) (xs.map (capD (mxHi xs y))) (capD (mxHi xs y) d0)
+      (List.mem_map.mpr ⟨d0, hd0, rfl⟩) (by omega)
+    refine ⟨rfl, h0, ?_, ⟨_, List.mem_map.mpr ⟨d0, hd0, rfl⟩, htop⟩, fun _ _ _ => Or.inr (by omega)⟩
+    intro e he
+    obtain ⟨d, hd, rfl⟩ := List.mem_map.mp he
+    obtain ⟨c1, c2, c3, c4, c5⟩ := hcf d hd
+    omega
+
+theorem coreGround_maxEq : CoreGround maxEqCore RmaxEq := by
+  intro xs y st ts v hxs hnx hny hcore hst
+  obtain ⟨hy, hfix⟩ := maxEq_result_fix hxs hnx hcore hst
+  injection hy with e1 e2
+  constructor
+  · obtain ⟨e, he, htop⟩ := hfix.top
+    obtain ⟨x, hx, rfl⟩ := mem_pointBox.mp he
+    simp only at htop
+    rw [e2, ← htop]; exact hx
+  · intro x hx
+    have := (hfix.bnd (x, x) (mem_pointBox.mpr ⟨x, hx, rfl⟩)).2.2
+    simp only at this
+    omega
+
+theorem groundOk_maxEq : GroundOk .maxEq := groundOk_lift isLift_maxEq coreGround_maxEq
+
+theorem coreEntail_maxEq : CoreEntail maxEqCore RmaxEq := by
+  intro xs y xs' y' hxs hnx hny hcore
+  rcases maxEqCore_cases xs y with ⟨_, he⟩ | ⟨_, _, he⟩ | ⟨_, _, he⟩ <;>
+    (rw [he] at hcore; injection hcore with h1 _; cases h1)
+
+theorem entailOk_maxEq : EntailOk .maxEq := entailOk_lift isLift_maxEq coreEntail_maxEq
+
+/-! ### 4d. min_eq : `Min_i x_i = y` (mirror of max_eq) -/
+
+def RminEq (ts : List Int) (v : Int) : Prop := v ∈ ts ∧ ∀ x ∈ ts, v ≤ x
+
+theorem isLift_minEq : IsLift .minEq minEqCore RminEq :=
+  ⟨fun _ _ => rfl, fun _ _ => Iff.rfl, fun _ _ => Iff.rfl, fun _ _ => Iff.rfl⟩
+
+def mnLo (xs : Box) (y : Dom) : Int := max y.1 (minOf (·.1) xs)
+def mnHi (xs : Box) (y : Dom) : Int := min y.2 (minOf (·.2) xs)
+/-- raise the lower bound to `lo` -/
+def floorD (lo : Int) (d : Dom) : Dom := if d.1 < lo then (lo, d.2) else d
+/-- the only candidate must take a value `≤ hi` -/
+def lowerD (hi : Int) (d : Dom) : Dom := if d.1 ≤ hi then (d.1, hi) else d
+def nCandMin (hi : Int) (zs : Box) : Nat := (zs.filter (fun d => decide (d.1 ≤ hi))).length
+
+theorem minEqCore_cases (xs : Box) (y : Dom) :
+    (mnLo xs y > mnHi xs y ∧ minEqCore xs y = (.inc, xs, y)) ∨
+    (mnLo xs y ≤ mnHi xs y ∧ nCandMin (mnHi xs y) (xs.map (floorD (mnLo xs y))) = 1 ∧
+      minEqCore xs y = (.cons, (xs.map (floorD (mnLo xs y))).map (lowerD (mnHi xs y)), (mnLo xs y, mnHi xs y))) ∨
+    (mnLo xs y ≤ mnHi xs y ∧ nCandMin (mnHi xs y) (xs.map (floorD (mnLo xs y))) ≠ 1 ∧
+      minEqCore xs y = (.cons, xs.map (floorD (mnLo xs y)), (mnLo xs y, mnHi xs y))) := by
+  by_cases h1 : mnLo xs y > mnHi xs y
+  · left; refine ⟨h1, ?_⟩
+    unfold mnLo mnHi at h1
+    simp [minEqCore, h1]
+  · right
+    by_cases h2 : nCandMin (mnHi xs y) (xs.map (floorD (mnLo xs y))) = 1
+    · left; refine ⟨by omega, h2, ?_⟩
+      unfold mnLo mnHi nCandMin floorD lowerD at *
+      simp only [minEqCore]
+      rw [if_neg h1, h2]
+      rfl
+    · right; refine ⟨by omega, h2, ?_⟩
+      unfold mnLo mnHi nCandMin floorD at *
+      simp only [minEqCore]
+      rw [if_neg h1]
+      simp only [beq_iff_eq]
+      rw [if_neg h2]
+
+theorem minEq_keep_y {xs : Box} {y : Dom} {ts : List Int} {v : Int}
+    (hts : inBox ts xs) (hv : inDom v y) (hr : RminEq ts v) (hxs : xs ≠ []) :
+    mnLo xs y ≤ v ∧ v ≤ mnHi xs y := by
+  unfold mnLo mnHi
+  obtain ⟨hmem, hle⟩ := hr
+  obtain ⟨d, hd, hfd⟩ := minOf_mem (·.2) xs hxs
+  obtain ⟨x, hx, hxd⟩ := inBox_exists_of_mem hts d hd
+  have := hle x hx
+  obtain ⟨e, he, hve⟩ := inBox_exists_of_mem' hts v hmem
+  have := minOf_le (·.1) xs e he
+  unfold inDom at *
+  omega
+
+theorem map_lowerD_of_nCandMin_zero (hi : Int) : ∀ (zs : Box), nCandMin hi zs = 0 → zs.map (lowerD hi) = zs
+  | [], _ => rfl
+  | d :: ds, h => by
+    unfold nCandMin at h
+    by_cases hc : d.1 ≤ hi
+    · simp [List.filter, hc] at h
+    · have h' : nCandMin hi ds = 0 := by simpa [nCandMin, List.filter, hc] using h
+      simp [lowerD, hc, map_lowerD_of_nCandMin_zero hi ds h']
+
+theorem nCandMin_pos_of_inBox (hi : Int) : ∀ {ts : List Int} {zs : Box}, inBox ts zs →
+    (∃ x ∈ ts, x ≤ hi) → 0 < nCandMin hi zs
+  | [], [], _, ⟨x, hx, _⟩ => by simp at hx
+  | t :: ts, d :: ds, h, ⟨x, hx, hlo⟩ => by
+    unfold nCandMin
+    by_cases hc : d.1 ≤ hi
+    · simp [List.filter, hc]
+    · have : x ∈ ts := by
+        rcases List.mem_cons.mp hx with hx | hx
+        · subst hx; have := h.1; unfold inDom at this; omega
+        · exact hx
+      have := nCandMin_pos_of_inBox hi h.2 ⟨x, this, hlo⟩
+      simpa [nCandMin, List.filter, hc] using this
+  | [], _ :: _, h, _ => by simp [inBox] at h
+  | _ :: _, [], h, _ => by simp [inBox] at h
+
+theorem minEq_keep_lower (hi : Int) : ∀ {ts : List Int} {zs : Box}, inBox ts zs → nCandMin hi zs ≤ 1 →
+    (∃ x ∈ ts, x ≤ hi) → inBox ts (zs.map (lowerD hi))
+  | [], [], _, _, _ => trivial
+  | t :: ts, d :: ds, h, hn, ⟨x, hx, hlo⟩ => by
+    by_cases hc : d.1 ≤ hi
+    · have h0 : nCandMin hi ds = 0 := by
+        simp [nCandMin, List.filter, hc] at hn; simpa [nCandMin] using hn
+      have hxt : x = t := by
+        rcases List.mem_cons.mp hx with hx | hx
+        · exact hx
+        · have := nCandMin_pos_of_inBox hi h.2 ⟨x, hx, hlo⟩; omega
+      subst hxt
+      rw [List.map_cons, map_lowerD_of_nCandMin_zero hi ds h0]
+      refine ⟨?_, h.2⟩
+      have := h.1
+      unfold inDom lowerD at *
+      simp only [hc, if_true]
+      omega
+    · have hn' : nCandMin hi ds ≤ 1 := by simpa [nCandMin, List.filter, hc] using hn
+      have : x ∈ ts := by
+        rcases List.mem_cons.mp hx with hx | hx
+        · subst hx; have := h.1; unfold inDom at this; omega
+        · exact hx
+      have ih := minEq_keep_lower hi h.2 hn' ⟨x, this, hlo⟩
+      refine ⟨?_, ih⟩
+      simpa [lowerD, hc] using h.1
+  | [], _ :: _, h, _, _ => by simp [inBox] at h
+  | _ :: _, [], h, _, _ => by simp [inBox] at h
+
+theorem minEq_keep_floor {xs : Box} {lo : Int} {ts : List Int} (hts : inBox ts xs)
+    (hle : ∀ x ∈ ts, lo ≤ x) : inBox ts (xs.map (floorD lo)) := by
+  refine inBox_map _ (fun x => lo ≤ x) ?_ hts hle
+  intro x d hx hxd
+  unfold inDom floorD at *
+  split
+  · simp only; omega
+  · exact hxd
+
+theorem floorD_facts {xs : Box} {y : Dom} (hnx : Box.Nonempty xs) (h : mnLo xs y ≤ mnHi xs y) :
+    ∀ d ∈ xs, (floorD (mnLo xs y) d).2 = d.2 ∧ mnHi xs y ≤ d.2 ∧ mnLo xs y ≤ (floorD (mnLo xs y) d).1 ∧
+      d.1 ≤ (floorD (mnLo xs y) d).1 ∧ (floorD (mnLo xs y) d).1 ≤ (floorD (mnLo xs y) d).2 := by
+  intro d hd
+  have h1 : minOf (·.2) xs ≤ d.2 := minOf_le (·.2) xs d hd
+  have h2 := hnx d hd
+  have h3 : mnHi xs y ≤ minOf (·.2) xs := by unfold mnHi; omega
+  by_cases hc : d.1 < mnLo xs y
+  · rw [floorD, if_pos hc]; exact ⟨rfl, by omega, Int.le_refl _, by simp only; omega, by simp only; omega⟩
+  · rw [floorD, if_neg hc]; exact ⟨rfl, by omega, by omega, Int.le_refl _, h2⟩
+
+theorem lowerD_facts (hi : Int) (d : Dom) (h : hi ≤ d.2) (hd : d.1 ≤ d.2) :
+    (lowerD hi d).2 ≤ d.2 ∧ (lowerD hi d).1 = d.1 ∧ (lowerD hi d).1 ≤ (lowerD hi d).2 := by
+  by_cases hc : d.1 ≤ hi
+  · rw [lowerD, if_pos hc]; exact ⟨h, rfl, hc⟩
+  · rw [lowerD, if_neg hc]; exact ⟨Int.le_refl _, rfl, hd⟩
+
+theorem coreSound_minEq : CoreSound minEqCore RminEq := by
+  intro xs y st xs' y' hxs hnx hny hcore
+  have hyle : mnLo xs y ≤ mnHi xs y → (y.1 ≤ (mnLo xs y, mnHi xs y).1 ∧ (mnLo xs y, mnHi xs y).2 ≤ y.2) := by
+    intro _; unfold mnLo mnHi; simp only; omega
+  rcases minEqCore_cases xs y with ⟨h0, he⟩ | ⟨h0, hn, he⟩ | ⟨h0, hn, he⟩
+  · rw [he] at hcore
+    injection hcore with h1 hcore
+    subst h1
+    refine ⟨fun h => absurd rfl h, fun _ ts v hts hv hr => ?_⟩
+    have := minEq_keep_y hts hv hr hxs
+    omega
+  · rw [he] at hcore
+    injection hcore with h1 hcore; injection hcore with h4 h5
+    subst h1; subst h4; subst h5
+    have hcf := floorD_facts (y := y) hnx h0
+    refine ⟨fun _ => ⟨?_, hyle h0, ?_, h0, fun ts v hts hv hr => ?_⟩, fun h => by cases h⟩
+    · rw [List.map_map]
+      refine Box.map_le' _ xs (fun d hd => ?_)
+      obtain ⟨c1, c2, c3, c4, c5⟩ := hcf d hd
+      have := lowerD_facts (mnHi xs y) (floorD (mnLo xs y) d) (by omega) c5
+      simp only [Function.comp]
+      omega
+    · rw [List.map_map]
+      refine Box.nonempty_map _ xs (fun d hd => ?_)
+      obtain ⟨c1, c2, c3, c4, c5⟩ := hcf d hd
+      exact (lowerD_facts (mnHi xs y) (floorD (mnLo xs y) d) (by omega) c5).2.2
+    · have hk := minEq_keep_y hts hv hr hxs
+      have hfl := minEq_keep_floor (lo := mnLo xs y) hts (fun x hx => by have := hr.2 x hx; omega)
+      exact ⟨minEq_keep_lower _ hfl (by omega) ⟨v, hr.1, hk.2⟩, hk⟩
+  · rw [he] at hcore
+    injection hcore with h1 hcore; injection hcore with h4 h5
+    subst h1; subst h4; subst h5
+    have hcf := floorD_facts (y := y) hnx h0
+    refine ⟨fun _ => ⟨?_, hyle h0, ?_, h0, fun ts v hts hv hr => ?_⟩, fun h => by cases h⟩
+    · refine Box.map_le' _ xs (fun d hd => ?_)
+      obtain ⟨c1, c2, c3, c4, c5⟩ := hcf d hd
+      omega
+    · exact Box.nonempty_map _ xs (fun d hd => (hcf d hd).2.2.2.2)
+    · have hk := minEq_keep_y hts hv hr hxs
+      exact ⟨minEq_keep_floor hts (fun x hx => by have := hr.2 x hx; omega), hk⟩
+
+theorem sound_minEq : Sound .minEq := sound_lift isLift_minEq coreSound_minEq
+theorem contractMono_minEq : ContractMono .minEq := contractMono_lift isLift_minEq
+theorem safe_minEq : Safe .minEq := safe_lift isLift_minEq
+
+theorem nCandMin_pos_of_mem (hi : Int) : ∀ (zs : Box) (e : Dom), e ∈ zs → e.1 ≤ hi → 0 < nCandMin hi zs
+  | d :: ds, e, he, h => by
+    unfold nCandMin
+    by_cases hc : d.1 ≤ hi
+    · simp [List.filter, hc]
+    · have : e ∈ ds := by
+        rcases List.mem_cons.mp he with he | he
+        · subst he; exact absurd h hc
+        · exact he
+      have := nCandMin_pos_of_mem hi ds e this h
+      simpa [nCandMin, List.filter, hc] using this
+
+/-- what a non-failing `minEqCore` call establishes (and what makes a box a fixpoint) -/
+structure MinEqFix (zs : Box) (lo hi : Int) : Prop where
+  le : lo ≤ hi
+  bnd : ∀ e ∈ zs, hi ≤ e.2 ∧ e.1 ≤ e.2 ∧ lo ≤ e.1
+  bot : ∃ e ∈ zs, e.1 = lo
+  cand : ∀ e ∈ zs, e.1 ≤ hi → e.2 = hi ∨ 2 ≤ nCandMin hi zs
+
+theorem floorD_bot {xs : Box} {y : Dom} (hxs : xs ≠ []) :
+    ∃ d ∈ xs, (floorD (mnLo xs y) d).1 = mnLo xs y := by
+  obtain ⟨d, hd, hfd⟩ := minOf_mem (·.1) xs hxs
+  refine ⟨d, hd, ?_⟩
+  have : d.1 ≤ mnLo xs y := by unfold mnLo; omega
+  by_cases hc : d.1 < mnLo xs y
+  · rw [floorD, if_pos hc]
+  · rw [floorD, if_neg hc]; omega
+
+theorem minEq_result_fix {xs : Box} {y : Dom} {st : Status} {xs' : Box} {y' : Dom}
+    (hxs : xs ≠ []) (hnx : Box.Nonempty xs) (hcore : minEqCore xs y = (st, xs', y')) (hst : st ≠ .inc) :
+    y' = (mnLo xs y, mnHi xs y) ∧ MinEqFix xs' (mnLo xs y) (mnHi xs y) := by
+  rcases minEqCore_cases xs y with ⟨h0, he⟩ | ⟨h0, hn, he⟩ | ⟨h0, hn, he⟩
+  · rw [he] at hcore
+    injection hcore with h1 _
+    exact absurd h1.symm hst
+  · rw [he] at hcore
+    injection hcore with h1 hcore; injection hcore with h4 h5
+    subst h4; subst h5
+    have hcf := floorD_facts (y := y) hnx h0
+    refine ⟨rfl, h0, ?_, ?_, ?_⟩
+    · intro e he
+      rw [List.map_map] at he
+      obtain ⟨d, hd, rfl⟩ := List.mem_map.mp he
+      obtain ⟨c1, c2, c3, c4, c5⟩ := hcf d hd
+      simp only [Function.comp]
+      by_cases hc : (floorD (mnLo xs y) d).1 ≤ mnHi xs y
+      · rw [lowerD, if_pos hc]; exact ⟨Int.le_refl _, hc, c3⟩
+      · rw [lowerD, if_neg hc]; omega
+    · obtain ⟨d, hd, hbot⟩ := floorD_bot (y := y) hxs
+      obtain ⟨c1, c2, c3, c4, c5⟩ := hcf d hd
+      refine ⟨lowerD (mnHi xs y) (floorD (mnLo xs y) d), ?_, ?_⟩
+      · exact List.mem_map.mpr ⟨_, List.mem_map.mpr ⟨d, hd, rfl⟩, rfl⟩
+      · rw [(lowerD_facts _ _ (by omega) c5).2.1]; exact hbot
+    · intro e he hge
+      obtain ⟨c, hc, rfl⟩ := List.mem_map.mp he
+      left
+      by_cases hcc : c.1 ≤ mnHi xs y
+      · rw [lowerD, if_pos hcc]
+      · rw [lowerD, if_neg hcc] at hge; exact absurd hge hcc
+  · rw [he] at hcore
+    injection hcore with h1 hcore; injection hcore with h4 h5
+    subst h4; subst h5
+    have hcf := floorD_facts (y := y) hnx h0
+    obtain ⟨d0, hd0, hbot⟩ := floorD_bot (y := y) hxs
+    have hpos := nCandMin_pos_of_mem (mnHi xs y) (xs.map (floorD (mnLo xs y))) (floorD (mnLo xs y) d0)
+      (List.mem_map.mpr ⟨d0, hd0, rfl⟩) (by omega)
+    refine ⟨rfl, h0, ?_, ⟨_, List.mem_map.mpr ⟨d0, hd0, rfl⟩, hbot⟩, fun _ _ _ => Or.inr (by omega)⟩
+    intro e he
+    obtain ⟨d, hd, rfl⟩ := List.mem_map.mp he
+    obtain ⟨c1, c2, c3, c4, c5⟩ := hcf d hd
+    omega
+
+theorem coreGround_minEq : CoreGround minEqCore RminEq := by
+  intro xs y st ts v hxs hnx hny hcore hst
+  obtain ⟨hy, hfix⟩ := minEq_result_fix hxs hnx hcore hst
+  injection hy with e1 e2
+  constructor
+  · obtain ⟨e, he, hbot⟩ := hfix.bot
+    obtain ⟨x, hx, rfl⟩ := mem_pointBox.mp he
+    simp only at hbot
+    rw [e1, ← hbot]; exact hx
+  · intro x hx
+    have := (hfix.bnd (x, x) (mem_pointBox.mpr ⟨x, hx, rfl⟩)).2.2
+    simp only at this
+    omega
+
+theorem groundOk_minEq : GroundOk .minEq := groundOk_lift isLift_minEq coreGround_minEq
+
+theorem coreEntail_minEq : CoreEntail minEqCore RminEq := by
+  intro xs y xs' y' hxs hnx hny hcore
+  rcases minEqCore_cases xs y with ⟨_, he⟩ | ⟨_, _, he⟩ | ⟨_, _, he⟩ <;>
+    (rw [he] at hcore; injection hcore with h1 _; cases h1)
+
+theorem entailOk_minEq : EntailOk .minEq := entailOk_lift isLift_minEq coreEntail_minEq
+
+/-! ### 5. trigger sufficiency -/
+
+theorem quiet_minOnly {o n : Dom} : quiet Ev.minOnly o n ↔ n.1 = o.1 := by
+  simp [quiet, Ev.meets, evOf, Ev.minOnly]
+
+theorem quiet_maxOnly {o n : Dom} : quiet Ev.maxOnly o n ↔ n.2 = o.2 := by
+  simp [quiet, Ev.meets, evOf, Ev.maxOnly]
+
+theorem map_eq_self (f : Dom → Dom) : ∀ (zs : Box), (∀ d ∈ zs, f d = d) → zs.map f = zs
+  | [], _ => rfl
+  | d :: ds, h => by
+    rw [List.map_cons, h d (by simp), map_eq_self f ds (fun e he => h e (by simp [he]))]
+
+/-- a box on which `maxLeqCore` changes nothing -/
+theorem maxLeq_fix {zs : Box} {y : Dom} (hzs : zs ≠ []) (hn : Box.Nonempty zs) (hny : y.1 ≤ y.2)
+    (h1 : ∀ d ∈ zs, d.2 ≤ y.2) (h2 : ∀ d ∈ zs, d.1 ≤ y.1) :
+    ∃ st, maxLeqCore zs y = (st, zs, y) ∧ st ≠ .inc := by
+  have hM : maxOf (·.1) zs ≤ y.1 := maxOf_le _ zs hzs _ h2
+  have hmap : zs.map (fun d => (d.1, min d.2 y.2)) = zs := by
+    refine map_eq_self _ zs (fun d hd => ?_)
+    have := h1 d hd
+    have e : min d.2 y.2 = d.2 := by omega
+    rw [e]
+  rcases maxLeqCore_cases zs y with ⟨_, he⟩ | ⟨_, _, hf⟩ | ⟨_, _, _, he⟩
+  · exact ⟨_, he, by simp⟩
+  · rcases hf with hf | hf
+    · omega
+    · rw [hmap] at hf; exact absurd hn hf
+  · refine ⟨.cons, ?_, by simp⟩
+    rw [he, hmap]
+    have e : max y.1 (maxOf (·.1) zs) = y.1 := by omega
+    rw [e]
+
+theorem coreTrig_maxLeq : CoreTrig maxLeqCore Ev.minOnly Ev.maxOnly := by
+  intro xs y st xs' y' xs'' y'' hxs hnx hny hcore hst hle hley hn'' hny'' hq hqy
+  have hs := (coreSound_maxLeq xs y st xs' y' hxs hnx hny hcore).1 hst
+  have hl' : xs'.length = xs.length := Box.le_length hs.1
+  have hl'' : xs''.length = xs'.length := Box.le_length hle
+  have hxs'' : xs'' ≠ [] := by
+    intro h0; subst h0
+    cases xs with
+    | nil => exact hxs rfl
+    | cons _ _ => simp at hl'' hl'; omega
+  rw [quiet_maxOnly] at hqy
+  suffices h : (∀ d ∈ xs'', d.2 ≤ y''.2) ∧ (∀ d ∈ xs'', d.1 ≤ y''.1) from
+    maxLeq_fix hxs'' hn'' hny'' h.1 h.2
+  -- componentwise facts
+  have key : ∀ k, k < xs''.length →
+      (getDom xs'' k).2 ≤ y''.2 ∧ (getDom xs'' k).1 ≤ y''.1 := by
+    intro k hk
+    have hk' : k < xs'.length := by omega
+    have hkx : k < xs.length := by omega
+    have hlek := Box.le_get k hle hk'
+    have hqk := quiet_minOnly.mp (hq k hkx)
+    have hne := Box.nonempty_get hn'' k hk
+    have hmemx := getDom_mem hkx
+    rcases maxLeqCore_cases xs y with ⟨h0, he⟩ | ⟨_, he, _⟩ | ⟨_, h2, h3, he⟩
+    · rw [he] at hcore
+      injection hcore with _ hcore; injection hcore with e1 e2
+      subst e1; subst e2
+      have := le_maxOf (·.2) xs _ hmemx
+      omega
+    · rw [he] at hcore; injection hcore with e0 _; exact absurd e0.symm hst
+    · rw [he] at hcore
+      injection hcore with _ hcore; injection hcore with e1 e2
+      subst e1; subst e2
+      rw [getDom_map _ hkx] at hlek
+      have := le_maxOf (·.1) xs _ hmemx
+      simp only at this hlek hley
+      omega
+  constructor
+  · intro d hd
+    obtain ⟨k, hk, rfl⟩ := exists_getDom_of_mem hd
+    exact (key k hk).1
+  · intro d hd
+    obtain ⟨k, hk, rfl⟩ := exists_getDom_of_mem hd
+    exact (key k hk).2
+
+theorem trigOk_maxLeq : TrigOk .maxLeq :=
+  trigOk_lift isLift_maxLeq Ev.minOnly Ev.maxOnly
+    (fun ps n k h => by simp only [maskAlg, maskMaxLeq]; rw [if_neg (by omega)])
+    (fun ps n k h => by simp only [maskAlg, maskMaxLeq]; rw [if_pos h])
+    coreSound_maxLeq coreTrig_maxLeq
+
+/-- a box on which `minGeqCore` changes nothing -/
+theorem minGeq_fix {zs : Box} {y : Dom} (hzs : zs ≠ []) (hn : Box.Nonempty zs) (hny : y.1 ≤ y.2)
+    (h1 : ∀ d ∈ zs, y.1 ≤ d.1) (h2 : ∀ d ∈ zs, y.2 ≤ d.2) :
+    ∃ st, minGeqCore zs y = (st, zs, y) ∧ st ≠ .inc := by
+  have hM : y.2 ≤ minOf (·.2) zs := le_minOf _ zs hzs _ h2
+  have hmap : zs.map (fun d => (max d.1 y.1, d.2)) = zs := by
+    refine map_eq_self _ zs (fun d hd => ?_)
+    have := h1 d hd
+    have e : max d.1 y.1 = d.1 := by omega
+    rw [e]
+  rcases minGeqCore_cases zs y with ⟨_, he⟩ | ⟨_, _, hf⟩ | ⟨_, _, _, he⟩
+  · exact ⟨_, he, by simp⟩
+  · rcases hf with hf | hf
+    · omega
+    · rw [hmap] at hf; exact absurd hn hf
+  · refine ⟨.cons, ?_, by simp⟩
+    rw [he, hmap]
+    have e : min y.2 (minOf (·.2) zs) = y.2 := by omega
+    rw [e]
+
+theorem coreTrig_minGeq : CoreTrig minGeqCore Ev.maxOnly Ev.minOnly := by
+  intro xs y st xs' y' xs'' y'' hxs hnx hny hcore hst hle hley hn'' hny'' hq hqy
+  have hs := (coreSound_minGeq xs y st xs' y' hxs hnx hny hcore).1 hst
+  have hl' : xs'.length = xs.length := Box.le_length hs.1
+  have hl'' : xs''.length = xs'.length := Box.le_length hle
+  have hxs'' : xs'' ≠ [] := by
+    intro h0; subst h0
+    cases xs with
+    | nil => exact hxs rfl
+    | cons _ _ => simp at hl'' hl'; omega
+  rw [quiet_minOnly] at hqy
+  suffices h : (∀ d ∈ xs'', y''.1 ≤ d.1) ∧ (∀ d ∈ xs'', y''.2 ≤ d.2) from
+    minGeq_fix hxs'' hn'' hny'' h.1 h.2
+  have key : ∀ k, k < xs''.length →
+      y''.1 ≤ (getDom xs'' k).1 ∧ y''.2 ≤ (getDom xs'' k).2 := by
+    intro k hk
+    have hk' : k < xs'.length := by omega
+    have hkx : k < xs.length := by omega
+    have hlek := Box.le_get k hle hk'
+    have hqk := quiet_maxOnly.mp (hq k hkx)
+    have hne := Box.nonempty_get hn'' k hk
+    have hmemx := getDom_mem hkx
+    rcases minGeqCore_cases xs y with ⟨h0, he⟩ | ⟨_, he, _⟩ | ⟨_, h2, h3, he⟩
+    · rw [he] at hcore
+      injection hcore with _ hcore; injection hcore with e1 e2
+      subst e1; subst e2
+      have := minOf_le (·.1) xs _ hmemx
+      omega
+    · rw [he] at hcore; injection hcore with e0 _; exact absurd e0.symm hst
+    · rw [he] at hcore
+      injection hcore with _ hcore; injection hcore with e1 e2
+      subst e1; subst e2
+      rw [getDom_map _ hkx] at hlek
+      have := minOf_le (·.2) xs _ hmemx
+      simp only at this hlek hley
+      omega
+  constructor
+  · intro d hd
+    obtain ⟨k, hk, rfl⟩ := exists_getDom_of_mem hd
+    exact (key k hk).1
+  · intro d hd
+    obtain ⟨k, hk, rfl⟩ := exists_getDom_of_mem hd
+    exact (key k hk).2
+
+theorem trigOk_minGeq : TrigOk .minGeq :=
+  trigOk_lift isLift_minGeq Ev.maxOnly Ev.minOnly
+    (fun ps n k h => by simp only [maskAlg, maskMinGeq]; rw [if_neg (by omega)])
+    (fun ps n k h => by simp only [maskAlg, maskMinGeq]; rw [if_pos h])
+    coreSound_minGeq coreTrig_minGeq
+
+/-- a mask that watches MIN and MAX everywhere: a quiet sub-box is the input itself, so the call
+    had changed nothing -/
+theorem trigOk_of_minMax' (a : Alg) (hs : Sound a) (hm : ∀ ps n k, maskAlg a ps n k = Ev.minMax) :
+    TrigOk a := by
+  intro ps B st B' B'' hc hne hrun hst hle hne'' hq
+  have hle' := ((hs ps B st B' hc hne hrun).1 hst).1
+  have hl : B''.length = B.length := by rw [Box.le_length hle, Box.le_length hle']
+  have heq : B'' = B := by
+    refine Box.ext_get hl (fun k hk => ?_)
+    have := hq k (by omega)
+    rw [hm] at this
+    exact eq_of_quiet_minMax this
+  subst heq
+  have : B' = B'' := Box.le_antisymm hle' hle
+  subst this
+  exact ⟨st, hrun, hst⟩
+
+theorem trigOk_maxEq : TrigOk .maxEq := trigOk_of_minMax' .maxEq sound_maxEq (fun _ _ _ => rfl)
+theorem trigOk_minEq : TrigOk .minEq := trigOk_of_minMax' .minEq sound_minEq (fun _ _ _ => rfl)
+
+/-! ### 6. exactness (bounds consistency and idempotence) -/
+
+theorem exact_lift {a : Alg} {core : Core} {R : List Int → Int → Prop} (L : IsLift a core R)
+    (hs : CoreSound core R) (h : CoreExact core R) : Exact a := by
+  intro ps B st B' hc hne hrun hst
+  obtain ⟨xs, y, rfl, hxs⟩ := Box.shape ((L.con ps _).mp hc)
+  rw [L.run, liftLast_concat] at hrun
+  injection hrun with hrun
+  obtain ⟨hnx, hny⟩ := Box.nonempty_concat.mp hne
+  rcases hcore : core xs y with ⟨st0, xs', y'⟩
+  rw [hcore] at hrun
+  injection hrun with h1 h2
+  simp only at h1 h2
+  subst h1; subst h2
+  have hy' := ((hs xs y st0 xs' y' hxs hnx hny hcore).1 hst).2.2.2.1
+  obtain ⟨hk, ⟨t1, ht1, hr1⟩, ⟨t2, ht2, hr2⟩, ⟨st', hrun', hst'⟩⟩ := h xs y st0 xs' y' hxs hnx hny hcore hst
+  refine ⟨fun k hk' => ?_, st', by rw [L.run, liftLast_concat, hrun'], hst'⟩
+  by_cases hkx : k < xs'.length
+  · obtain ⟨⟨ts, v, a1, a2, a3, a4⟩, ⟨ts', v', b1, b2, b3, b4⟩⟩ := hk k hkx
+    rw [getDom_concat_left hkx]
+    constructor
+    · refine ⟨ts ++ [v], inBox_concat.mpr ⟨a1, a2⟩, ?_, ?_⟩
+      · rw [L.rel, tFront_concat, tBack_concat]; exact a3
+      · rw [getI_concat_left (by rw [inBox_length a1]; exact hkx)]; exact a4
+    · refine ⟨ts' ++ [v'], inBox_concat.mpr ⟨b1, b2⟩, ?_, ?_⟩
+      · rw [L.rel, tFront_concat, tBack_concat]; exact b3
+      · rw [getI_concat_left (by rw [inBox_length b1]; exact hkx)]; exact b4
+  · have hkeq : k = xs'.length := by simp at hk'; omega
+    subst hkeq
+    rw [getDom_concat_last]
+    constructor
+    · refine ⟨t1 ++ [y'.1], inBox_concat.mpr ⟨ht1, ⟨Int.le_refl _, hy'⟩⟩, ?_, ?_⟩
+      · rw [L.rel, tFront_concat, tBack_concat]; exact hr1
+      · rw [← inBox_length ht1, getI_concat_last]
+    · refine ⟨t2 ++ [y'.2], inBox_concat.mpr ⟨ht2, ⟨hy', Int.le_refl _⟩⟩, ?_, ?_⟩
+      · rw [L.rel, tFront_concat, tBack_concat]; exact hr2
+      · rw [← inBox_length ht2, getI_concat_last]
+
+/-- a tuple built domain by domain -/
+theorem inBox_mapTuple (g : Dom → Int) : ∀ (zs : Box), (∀ d ∈ zs, inDom (g d) d) → inBox (zs.map g) zs
+  | [], _ => trivial
+  | d :: ds, h => ⟨h d (by simp), inBox_mapTuple g ds (fun e he => h e (by simp [he]))⟩
+
+theorem getI_map (g : Dom → Int) {zs : Box} {k : Nat} (hk : k < zs.length) :
+    getI (zs.map g) k = g (getDom zs k) := by
+  simp [getI, getDom, List.getD, List.getElem?_eq_getElem hk]
+
+/-- what a non-failing `maxLeqCore` call establishes -/
+theorem maxLeq_result_fix {xs : Box} {y : Dom} {st : Status} {xs' : Box} {y' : Dom}
+    (hnx : Box.Nonempty xs) (hny : y.1 ≤ y.2)
+    (hcore : maxLeqCore xs y = (st, xs', y')) (hst : st ≠ .inc) :
+    (∀ d ∈ xs', d.2 ≤ y'.2) ∧ (∀ d ∈ xs', d.1 ≤ y'.1) := by
+  rcases maxLeqCore_cases xs y with ⟨h0, he⟩ | ⟨_, he, _⟩ | ⟨_, h2, h3, he⟩
+  · rw [he] at hcore
+    injection hcore with _ hcore; injection hcore with e1 e2
+    subst e1; subst e2
+    have hh : ∀ d ∈ xs, d.2 ≤ y.1 ∧ d.1 ≤ d.2 := fun d hd => by
+      have h1 : d.2 ≤ maxOf (·.2) xs := le_maxOf (·.2) xs d hd
+      exact ⟨by omega, hnx d hd⟩
+    exact ⟨fun d hd => by have := hh d hd; omega, fun d hd => by have := hh d hd; omega⟩
+  · rw [he] at hcore; injection hcore with e0 _; exact absurd e0.symm hst
+  · rw [he] at hcore
+    injection hcore with _ hcore; injection hcore with e1 e2
+    subst e1; subst e2
+    constructor
+    · intro e he
+      obtain ⟨d, hd, rfl⟩ := List.mem_map.mp he
+      simp only; omega
+    · intro e he
+      obtain ⟨d, hd, rfl⟩ := List.mem_map.mp he
+      have h1 : d.1 ≤ maxOf (·.1) xs := le_maxOf (·.1) xs d hd
+      simp only; omega
+
+theorem coreExact_maxLeq : CoreExact maxLeqCore RmaxLeq := by
+  intro xs y st xs' y' hxs hnx hny hcore hst
+  obtain ⟨f1, f2⟩ := maxLeq_result_fix hnx hny hcore hst
+  obtain ⟨hle, _, hn', hny', _⟩ := (coreSound_maxLeq xs y st xs' y' hxs hnx hny hcore).1 hst
+  have hxs' : xs' ≠ [] := by
+    intro h0; subst h0
+    have := Box.le_length hle
+    cases xs with
+    | nil => exact hxs rfl
+    | cons _ _ => simp at this
+  have hmin : inBox (xs'.map (·.1)) xs' ∧ RmaxLeq (xs'.map (·.1)) y'.1 := by
+    refine ⟨inBox_mapTuple _ xs' (fun d hd => ⟨Int.le_refl _, hn' d hd⟩), fun x hx => ?_⟩
+    obtain ⟨d, hd, rfl⟩ := List.mem_map.mp hx
+    exact f2 d hd
+  have hmax : inBox (xs'.map (·.2)) xs' ∧ RmaxLeq (xs'.map (·.2)) y'.2 := by
+    refine ⟨inBox_mapTuple _ xs' (fun d hd => ⟨hn' d hd, Int.le_refl _⟩), fun x hx => ?_⟩
+    obtain ⟨d, hd, rfl⟩ := List.mem_map.mp hx
+    exact f1 d hd
+  refine ⟨fun k hk => ⟨⟨_, y'.1, hmin.1, ⟨Int.le_refl _, hny'⟩, hmin.2, getI_map _ hk⟩,
+      ⟨_, y'.2, hmax.1, ⟨hny', Int.le_refl _⟩, hmax.2, getI_map _ hk⟩⟩,
+    ⟨_, hmin⟩, ⟨_, hmax⟩, maxLeq_fix hxs' hn' hny' f1 f2⟩
+
+theorem exact_maxLeq : Exact .maxLeq := exact_lift isLift_maxLeq coreSound_maxLeq coreExact_maxLeq
+
+/-- what a non-failing `minGeqCore` call establishes -/
+theorem minGeq_result_fix {xs : Box} {y : Dom} {st : Status} {xs' : Box} {y' : Dom}
+    (hnx : Box.Nonempty xs) (hny : y.1 ≤ y.2)
+    (hcore : minGeqCore xs y = (st, xs', y')) (hst : st ≠ .inc) :
+    (∀ d ∈ xs', y'.1 ≤ d.1) ∧ (∀ d ∈ xs', y'.2 ≤ d.2) := by
+  rcases minGeqCore_cases xs y with ⟨h0, he⟩ | ⟨_, he, _⟩ | ⟨_, h2, h3, he⟩
+  · rw [he] at hcore
+    injection hcore with _ hcore; injection hcore with e1 e2
+    subst e1; subst e2
+    have hh : ∀ d ∈ xs, y.2 ≤ d.1 ∧ d.1 ≤ d.2 := fun d hd => by
+      have h1 : minOf (·.1) xs ≤ d.1 := minOf_le (·.1) xs d hd
+      exact ⟨by omega, hnx d hd⟩
+    exact ⟨fun d hd => by have := hh d hd; omega, fun d hd => by have := hh d hd; omega⟩
+  · rw [he] at hcore; injection hcore with e0 _; exact absurd e0.symm hst
+  · rw [he] at hcore
+    injection hcore with _ hcore; injection hcore with e1 e2
+    subst e1; subst e2
+    constructor
+    · intro e he
+      obtain ⟨d, hd, rfl⟩ := List.mem_map.mp he
+      simp only; omega
+    · intro e he
+      obtain ⟨d, hd, rfl⟩ := List.mem_map.mp he
+      have h1 : minOf (·.2) xs ≤ d.2 := minOf_le (·.2) xs d hd
+      simp only; omega
+
+theorem coreExact_minGeq : CoreExact minGeqCore RminGeq := by
+  intro xs y st xs' y' hxs hnx hny hcore hst
+  obtain ⟨f1, f2⟩ := minGeq_result_fix hnx hny hcore hst
+  obtain ⟨hle, _, hn', hny', _⟩ := (coreSound_minGeq xs y st xs' y' hxs hnx hny hcore).1 hst
+  have hxs' : xs' ≠ [] := by
+    intro h0; subst h0
+    have := Box.le_length hle
+    cases xs with
+    | nil => exact hxs rfl
+    | cons _ _ => simp at this
+  have hmin : inBox (xs'.map (·.1)) xs' ∧ RminGeq (xs'.map (·.1)) y'.1 := by
+    refine ⟨inBox_mapTuple _ xs' (fun d hd => ⟨Int.le_refl _, hn' d hd⟩), fun x hx => ?_⟩
+    obtain ⟨d, hd, rfl⟩ := List.mem_map.mp hx
+    exact f1 d hd
+  have hmax : inBox (xs'.map (·.2)) xs' ∧ RminGeq (xs'.map (·.2)) y'.2 := by
+    refine ⟨inBox_mapTuple _ xs' (fun d hd => ⟨hn' d hd, Int.le_refl _⟩), fun x hx => ?_⟩
+    obtain ⟨d, hd, rfl⟩ := List.mem_map.mp hx
+    exact f2 d hd
+  refine ⟨fun k hk => ⟨⟨_, y'.1, hmin.1, ⟨Int.le_refl _, hny'⟩, hmin.2, getI_map _ hk⟩,
+      ⟨_, y'.2, hmax.1, ⟨hny', Int.le_refl _⟩, hmax.2, getI_map _ hk⟩⟩,
+    ⟨_, hmin⟩, ⟨_, hmax⟩, minGeq_fix hxs' hn' hny' f1 f2⟩
+
+theorem exact_minGeq : Exact .minGeq := exact_lift isLift_minGeq coreSound_minGeq coreExact_minGeq
+
+/-! positions of candidates -/
+
+theorem exists_idx_of_filter_pos (p : Dom → Bool) : ∀ (zs : Box), 0 < (zs.filter p).length →
+    ∃ j, j < zs.length ∧ p (getDom zs j) = true
+  | [], h => by simp at h
+  | d :: ds, h => by
+    by_cases hc : p d = true
+    · exact ⟨0, by simp, by simpa [getDom] using hc⟩
+    · have h' : 0 < (ds.filter p).length := by simpa [List.filter, hc] using h
+      obtain ⟨j, hj, hp⟩ := exists_idx_of_filter_pos p ds h'
+      exact ⟨j + 1, by simpa using hj, by simpa [getDom] using hp⟩
+
+theorem exists_other_idx (p : Dom → Bool) : ∀ (zs : Box), 2 ≤ (zs.filter p).length → ∀ k : Nat,
+    ∃ j, j ≠ k ∧ j < zs.length ∧ p (getDom zs j) = true
+  | [], h, _ => by simp at h
+  | d :: ds, h, k => by
+    by_cases hc : p d = true
+    · cases k with
+      | zero =>
+        have h' : 0 < (ds.filter p).length := by
+          simp [List.filter, hc] at h; omega
+        obtain ⟨j, hj, hp⟩ := exists_idx_of_filter_pos p ds h'
+        exact ⟨j + 1, by omega, by simpa using hj, by simpa [getDom] using hp⟩
+      | succ k' => exact ⟨0, by omega, by simp, by simpa [getDom] using hc⟩
+    · have h' : 2 ≤ (ds.filter p).length := by simpa [List.filter, hc] using h
+      cases k with
+      | zero =>
+        obtain ⟨j, hj, hp⟩ := exists_idx_of_filter_pos p ds (by omega)
+        exact ⟨j + 1, by omega, by simpa using hj, by simpa [getDom] using hp⟩
+      | succ k' =>
+        obtain ⟨j, hjk, hj, hp⟩ := exists_other_idx p ds h' k'
+        exact ⟨j + 1, by omega, by simpa using hj, by simpa [getDom] using hp⟩
+
+/-! overriding one position of a tuple -/
+
+theorem inBox_set : ∀ {ts : List Int} {zs : Box} (k : Nat) (x : Int), inBox ts zs →
+    inDom x (getDom zs k) → inBox (ts.set k x) zs
+  | [], [], _, _, _, _ => by simp [inBox]
+  | t :: ts, d :: ds, 0, x, h, hx => by
+    simp only [List.set_cons_zero, inBox]
+    exact ⟨by simpa [getDom] using hx, h.2⟩
+  | t :: ts, d :: ds, k + 1, x, h, hx => by
+    simp only [List.set_cons_succ, inBox]
+    exact ⟨h.1, inBox_set k x h.2 (by simpa [getDom] using hx)⟩
+  | [], _ :: _, _, _, h, _ => by simp [inBox] at h
+  | _ :: _, [], _, _, h, _ => by simp [inBox] at h
+
+theorem getI_set_self {ts : List Int} {k : Nat} (x : Int) (hk : k < ts.length) :
+    getI (ts.set k x) k = x := by
+  simp [getI, List.getD, hk]
+
+theorem getI_set_ne {ts : List Int} {k j : Nat} (x : Int) (h : k ≠ j) :
+    getI (ts.set k x) j = getI ts j := by
+  simp [getI, List.getD, List.getElem?_set_ne h]
+
+theorem getI_mem {ts : List Int} {j : Nat} (hj : j < ts.length) : getI ts j ∈ ts := by
+  simp [getI, List.getD, List.getElem?_eq_getElem hj]
+
+/-! max_eq -/
+
+theorem maxEqFix_idem {zs : Box} {lo hi : Int} (h : MaxEqFix zs lo hi) :
+    maxEqCore zs (lo, hi) = (.cons, zs, (lo, hi)) := by
+  obtain ⟨e0, he0, htop⟩ := h.top
+  have hle := h.le
+  have hzs : zs ≠ [] := by intro h0; subst h0; simp at he0
+  have hlo : mxLo zs (lo, hi) = lo := by
+    have := maxOf_le (·.1) zs hzs lo (fun d hd => (h.bnd d hd).1)
+    unfold mxLo; simp only; omega
+  have hhi : mxHi zs (lo, hi) = hi := by
+    have : e0.2 ≤ maxOf (·.2) zs := le_maxOf (·.2) zs e0 he0
+    unfold mxHi; simp only; omega
+  have hcap : zs.map (capD hi) = zs := map_eq_self _ zs (fun d hd => by
+    have := (h.bnd d hd).2.2
+    rw [capD, if_neg (by omega)])
+  rcases maxEqCore_cases zs (lo, hi) with ⟨h0, _⟩ | ⟨_, hn, he⟩ | ⟨_, _, he⟩
+  · rw [hlo, hhi] at h0; omega
+  · rw [hlo, hhi, hcap] at he hn
+    rw [he]
+    have : zs.map (raiseD lo) = zs := map_eq_self _ zs (fun d hd => by
+      by_cases hc : d.2 ≥ lo
+      · rcases h.cand d hd hc with h1 | h1
+        · rw [raiseD, if_pos hc, ← h1]
+        · omega
+      · rw [raiseD, if_neg hc])
+    rw [this]
+  · rw [hlo, hhi, hcap] at he; exact he
+
+theorem maxEqFix_bounds {zs : Box} {lo hi : Int} (h : MaxEqFix zs lo hi) :
+    (∀ k, k < zs.length →
+      (∃ ts v, inBox ts zs ∧ inDom v (lo, hi) ∧ RmaxEq ts v ∧ getI ts k = (getDom zs k).1) ∧
+      (∃ ts v, inBox ts zs ∧ inDom v (lo, hi) ∧ RmaxEq ts v ∧ getI ts k = (getDom zs k).2)) ∧
+    (∃ ts, inBox ts zs ∧ RmaxEq ts lo) ∧ (∃ ts, inBox ts zs ∧ RmaxEq ts hi) := by
+  obtain ⟨e0, he0, htop⟩ := h.top
+  have hle := h.le
+  have hlo_dom : inDom lo (lo, hi) := ⟨Int.le_refl _, hle⟩
+  -- the solution with `y = lo`: candidates at `lo`, the others at their minimum
+  have hg0 : inBox (zs.map (fun e : Dom => if e.2 ≥ lo then lo else e.1)) zs ∧
+      RmaxEq (zs.map (fun e : Dom => if e.2 ≥ lo then lo else e.1)) lo := by
+    refine ⟨inBox_mapTuple _ zs (fun d hd => ?_), ?_, fun x hx => ?_⟩
+    · obtain ⟨b1, b2, b3⟩ := h.bnd d hd
+      unfold inDom
+      by_cases hc : d.2 ≥ lo
+      · rw [if_pos hc]; exact ⟨b1, hc⟩
+      · rw [if_neg hc]; exact ⟨Int.le_refl _, b2⟩
+    · exact List.mem_map.mpr ⟨e0, he0, by rw [if_pos (by omega)]⟩
+    · obtain ⟨d, hd, rfl⟩ := List.mem_map.mp hx
+      by_cases hc : d.2 ≥ lo
+      · rw [if_pos hc]; exact Int.le_refl _
+      · rw [if_neg hc]; exact (h.bnd d hd).1
+  -- the solution with `y = hi`: everybody at the maximum
+  have hmax : inBox (zs.map (·.2)) zs ∧ RmaxEq (zs.map (·.2)) hi := by
+    refine ⟨inBox_mapTuple _ zs (fun d hd => ⟨(h.bnd d hd).2.1, Int.le_refl _⟩), ?_, fun x hx => ?_⟩
+    · exact List.mem_map.mpr ⟨e0, he0, htop⟩
+    · obtain ⟨d, hd, rfl⟩ := List.mem_map.mp hx
+      exact (h.bnd d hd).2.2
+  refine ⟨fun k hk => ⟨?_, ?_⟩, ⟨_, hg0⟩, ⟨_, hmax⟩⟩
+  · -- the minimum of x_k
+    have hek := getDom_mem hk
+    obtain ⟨b1, b2, b3⟩ := h.bnd _ hek
+    by_cases hc : (getDom zs k).2 ≥ lo ∧ (getDom zs k).1 ≠ lo
+    · have h2 : 2 ≤ nCand lo zs := by
+        rcases h.cand _ hek hc.1 with h1 | h1
+        · exact absurd h1 hc.2
+        · exact h1
+      obtain ⟨j, hjk, hj, hp⟩ := exists_other_idx _ zs h2 k
+      have hp' : (getDom zs j).2 ≥ lo := by simpa using hp
+      refine ⟨(zs.map (fun e : Dom => if e.2 ≥ lo then lo else e.1)).set k (getDom zs k).1, lo,
+        inBox_set k _ hg0.1 ⟨Int.le_refl _, b2⟩, hlo_dom, ⟨?_, fun x hx => ?_⟩,
+        getI_set_self _ (by simpa using hk)⟩
+      · have e1 : getI ((zs.map (fun e : Dom => if e.2 ≥ lo then lo else e.1)).set k (getDom zs k).1) j = lo := by
+          rw [getI_set_ne _ (Ne.symm hjk), getI_map _ hj, if_pos hp']
+        have hm := getI_mem (ts := (zs.map (fun e : Dom => if e.2 ≥ lo then lo else e.1)).set k (getDom zs k).1)
+          (j := j) (by simpa using hj)
+        rwa [e1] at hm
+      · rcases List.mem_or_eq_of_mem_set hx with hx | hx
+        · exact hg0.2.2 x hx
+        · rw [hx]; exact b1
+    · refine ⟨_, lo, hg0.1, hlo_dom, hg0.2, ?_⟩
+      rw [getI_map _ hk]
+      by_cases hc2 : (getDom zs k).2 ≥ lo
+      · rw [if_pos hc2]
+        by_cases hc3 : (getDom zs k).1 = lo
+        · exact hc3.symm
+        · exact absurd ⟨hc2, hc3⟩ hc
+      · rw [if_neg hc2]
+  · -- the maximum of x_k
+    have hek := getDom_mem hk
+    obtain ⟨b1, b2, b3⟩ := h.bnd _ hek
+    by_cases hc : (getDom zs k).2 ≥ lo
+    · refine ⟨zs.map (fun e : Dom => min e.2 (getDom zs k).2), (getDom zs k).2,
+        inBox_mapTuple _ zs (fun d hd => ?_), ⟨hc, b3⟩, ⟨?_, fun x hx => ?_⟩, ?_⟩
+      · obtain ⟨c1, c2, c3⟩ := h.bnd d hd
+        unfold inDom; omega
+      · exact List.mem_map.mpr ⟨_, hek, by omega⟩
+      · obtain ⟨d, hd, rfl⟩ := List.mem_map.mp hx
+        omega
+      · rw [getI_map _ hk]; omega
+    · refine ⟨zs.map (fun e : Dom => if e.2 ≥ lo then lo else e.2), lo,
+        inBox_mapTuple _ zs (fun d hd => ?_), hlo_dom, ⟨?_, fun x hx => ?_⟩, ?_⟩
+      · obtain ⟨c1, c2, c3⟩ := h.bnd d hd
+        unfold inDom
+        by_cases hc2 : d.2 ≥ lo
+        · rw [if_pos hc2]; exact ⟨c1, hc2⟩
+        · rw [if_neg hc2]; exact ⟨c2, Int.le_refl _⟩
+      · exact List.mem_map.mpr ⟨e0, he0, by rw [if_pos (by omega)]⟩
+      · obtain ⟨d, hd, rfl⟩ := List.mem_map.mp hx
+        by_cases hc2 : d.2 ≥ lo
+        · rw [if_pos hc2]; exact Int.le_refl _
+        · rw [if_neg hc2]; omega
+      · rw [getI_map _ hk, if_neg hc]
+
+theorem coreExact_maxEq : CoreExact maxEqCore RmaxEq := by
+  intro xs y st xs' y' hxs hnx hny hcore hst
+  obtain ⟨rfl, hfix⟩ := maxEq_result_fix hxs hnx hcore hst
+  obtain ⟨h1, h2, h3⟩ := maxEqFix_bounds hfix
+  exact ⟨h1, h2, h3, .cons, maxEqFix_idem hfix, by simp⟩
+
+theorem exact_maxEq : Exact .maxEq := exact_lift isLift_maxEq coreSound_maxEq coreExact_maxEq
+
+/-! min_eq -/
+
+theorem minEqFix_idem {zs : Box} {lo hi : Int} (h : MinEqFix zs lo hi) :
+    minEqCore zs (lo, hi) = (.cons, zs, (lo, hi)) := by
+  obtain ⟨e0, he0, hbot⟩ := h.bot
+  have hle := h.le
+  have hzs : zs ≠ [] := by intro h0; subst h0; simp at he0
+  have hhi : mnHi zs (lo, hi) = hi := by
+    have := le_minOf (·.2) zs hzs hi (fun d hd => (h.bnd d hd).1)
+    unfold mnHi; simp only; omega
+  have hlo : mnLo zs (lo, hi) = lo := by
+    have : minOf (·.1) zs ≤ e0.1 := minOf_le (·.1) zs e0 he0
+    unfold mnLo; simp only; omega
+  have hfl : zs.map (floorD lo) = zs := map_eq_self _ zs (fun d hd => by
+    have := (h.bnd d hd).2.2
+    rw [floorD, if_neg (by omega)])
+  rcases minEqCore_cases zs (lo, hi) with ⟨h0, _⟩ | ⟨_, hn, he⟩ | ⟨_, _, he⟩
+  · rw [hlo, hhi] at h0; omega
+  · rw [hlo, hhi, hfl] at he hn
+    rw [he]
+    have : zs.map (lowerD hi) = zs := map_eq_self _ zs (fun d hd => by
+      by_cases hc : d.1 ≤ hi
+      · rcases h.cand d hd hc with h1 | h1
+        · rw [lowerD, if_pos hc, ← h1]
+        · omega
+      · rw [lowerD, if_neg hc])
+    rw [this]
+  · rw [hlo, hhi, hfl] at he; exact he
+
+theorem minEqFix_bounds {zs : Box} {lo hi : Int} (h : MinEqFix zs lo hi) :
+    (∀ k, k < zs.length →
+      (∃ ts v, inBox ts zs ∧ inDom v (lo, hi) ∧ RminEq ts v ∧ getI ts k = (getDom zs k).1) ∧
+      (∃ ts v, inBox ts zs ∧ inDom v (lo, hi) ∧ RminEq ts v ∧ getI ts k = (getDom zs k).2)) ∧
+    (∃ ts, inBox ts zs ∧ RminEq ts lo) ∧ (∃ ts, inBox ts zs ∧ RminEq ts hi) := by
+  obtain ⟨e0, he0, hbot⟩ := h.bot
+  have hle := h.le
+  have hhi_dom : inDom hi (lo, hi) := ⟨hle, Int.le_refl _⟩
+  -- the solution with `y = hi`: candidates at `hi`, the others at their maximum
+  have hg0 : inBox (zs.map (fun e : Dom => if e.1 ≤ hi then hi else e.2)) zs ∧
+      RminEq (zs.map (fun e : Dom => if e.1 ≤ hi then hi else e.2)) hi := by
+    refine ⟨inBox_mapTuple _ zs (fun d hd => ?_), ?_, fun x hx => ?_⟩
+    · obtain ⟨b1, b2, b3⟩ := h.bnd d hd
+      unfold inDom
+      by_cases hc : d.1 ≤ hi
+      · rw [if_pos hc]; exact ⟨hc, b1⟩
+      · rw [if_neg hc]; exact ⟨b2, Int.le_refl _⟩
+    · exact List.mem_map.mpr ⟨e0, he0, by rw [if_pos (by omega)]⟩
+    · obtain ⟨d, hd, rfl⟩ := List.mem_map.mp hx
+      by_cases hc : d.1 ≤ hi
+      · rw [if_pos hc]; exact Int.le_refl _
+      · rw [if_neg hc]; exact (h.bnd d hd).1
+  -- the solution with `y = lo`: everybody at the minimum
+  have hmin : inBox (zs.map (·.1)) zs ∧ RminEq (zs.map (·.1)) lo := by
+    refine ⟨inBox_mapTuple _ zs (fun d hd => ⟨Int.le_refl _, (h.bnd d hd).2.1⟩), ?_, fun x hx => ?_⟩
+    · exact List.mem_map.mpr ⟨e0, he0, hbot⟩
+    · obtain ⟨d, hd, rfl⟩ := List.mem_map.mp hx
+      exact (h.bnd d hd).2.2
+  refine ⟨fun k hk => ⟨?_, ?_⟩, ⟨_, hmin⟩, ⟨_, hg0⟩⟩
+  · -- the minimum of x_k
+    have hek := getDom_mem hk
+    obtain ⟨b1, b2, b3⟩ := h.bnd _ hek
+    by_cases hc : (getDom zs k).1 ≤ hi
+    · refine ⟨zs.map (fun e : Dom => max e.1 (getDom zs k).1), (getDom zs k).1,
+        inBox_mapTuple _ zs (fun d hd => ?_), ⟨b3, hc⟩, ⟨?_, fun x hx => ?_⟩, ?_⟩
+      · obtain ⟨c1, c2, c3⟩ := h.bnd d hd
+        unfold inDom; omega
+      · exact List.mem_map.mpr ⟨_, hek, by omega⟩
+      · obtain ⟨d, hd, rfl⟩ := List.mem_map.mp hx
+        omega
+      · rw [getI_map _ hk]; omega
+    · refine ⟨zs.map (fun e : Dom => if e.1 ≤ hi then hi else e.1), hi,
+        inBox_mapTuple _ zs (fun d hd => ?_), hhi_dom, ⟨?_, fun x hx => ?_⟩, ?_⟩
+      · obtain ⟨c1, c2, c3⟩ := h.bnd d hd
+        unfold inDom
+        by_cases hc2 : d.1 ≤ hi
+        · rw [if_pos hc2]; exact ⟨hc2, c1⟩
+        · rw [if_neg hc2]; exact ⟨Int.le_refl _, c2⟩
+      · exact List.mem_map.mpr ⟨e0, he0, by rw [if_pos (by omega)]⟩
+      · obtain ⟨d, hd, rfl⟩ := List.mem_map.mp hx
+        by_cases hc2 : d.1 ≤ hi
+        · rw [if_pos hc2]; exact Int.le_refl _
+        · rw [if_neg hc2]; omega
+      · rw [getI_map _ hk, if_neg hc]
+  · -- the maximum of x_k
+    have hek := getDom_mem hk
+    obtain ⟨b1, b2, b3⟩ := h.bnd _ hek
+    by_cases hc : (getDom zs k).1 ≤ hi ∧ (getDom zs k).2 ≠ hi
+    · have h2 : 2 ≤ nCandMin hi zs := by
+        rcases h.cand _ hek hc.1 with h1 | h1
+        · exact absurd h1 hc.2
+        · exact h1
+      obtain ⟨j, hjk, hj, hp⟩ := exists_other_idx _ zs h2 k
+      have hp' : (getDom zs j).1 ≤ hi := by simpa using hp
+      refine ⟨(zs.map (fun e : Dom => if e.1 ≤ hi then hi else e.2)).set k (getDom zs k).2, hi,
+        inBox_set k _ hg0.1 ⟨b2, Int.le_refl _⟩, hhi_dom, ⟨?_, fun x hx => ?_⟩,
+        getI_set_self _ (by simpa using hk)⟩
+      · have e1 : getI ((zs.map (fun e : Dom => if e.1 ≤ hi then hi else e.2)).set k (getDom zs k).2) j = hi := by
+          rw [getI_set_ne _ (Ne.symm hjk), getI_map _ hj, if_pos hp']
+        have hm := getI_mem (ts := (zs.map (fun e : Dom => if e.1 ≤ hi then hi else e.2)).set k (getDom zs k).2)
+          (j := j) (by simpa using hj)
+        rwa [e1] at hm
+      · rcases List.mem_or_eq_of_mem_set hx with hx | hx
+        · exact hg0.2.2 x hx
+        · rw [hx]; exact b1
+    · refine ⟨_, hi, hg0.1, hhi_dom, hg0.2, ?_⟩
+      rw [getI_map _ hk]
+      by_cases hc2 : (getDom zs k).1 ≤ hi
+      · rw [if_pos hc2]
+        by_cases hc3 : (getDom zs k).2 = hi
+        · exact hc3.symm
+        · exact absurd ⟨hc2, hc3⟩ hc
+      · rw [if_neg hc2]
+
+theorem coreExact_minEq : CoreExact minEqCore RminEq := by
+  intro xs y st xs' y' hxs hnx hny hcore hst
+  obtain ⟨rfl, hfix⟩ := minEq_result_fix hxs hnx hcore hst
+  obtain ⟨h1, h2, h3⟩ := minEqFix_bounds hfix
+  exact ⟨h1, h2, h3, .cons, minEqFix_idem hfix, by simp⟩
+
+theorem exact_minEq : Exact .minEq := exact_lift isLift_minEq coreSound_minEq coreExact_minEq
 
 end Nucs
